@@ -576,3 +576,36 @@ def enum_c12_coap(tier):
 
 C12_COAP_LAYERS = [Layer("coap-events-fixed", run_c12_coap, enumerate=enum_c12_coap, exhaustive=True, space="4 fixed notification shapes (repeated instance id in one notification, raising listeners)"),
                    Layer("coap-events", run_c12_coap, strategy=c12_coap_cases, n={"quick": 400, "thorough": 8000}, min_nontrivial=100)]
+
+
+# ---------------------------------------------------------------- C15: pairing TLVs longer than 255 bytes through the CoAP transport
+def run_c15_coap(case, R):
+    """list_pairings over CoAP with n controllers: from four controllers on the pairing TLV exceeds 255 bytes and travels as several Value fragments."""
+    n = case["n"]
+    R.nt(n >= 4)
+    R.cls("coap-list-pairings", f"controllers={n}")
+
+    async def main(loop):
+        w = CoapWorld(loop, k=case.get("k", 0))
+        try:
+            p = w.pairing
+            for i in range(n - 1):
+                w.ident.controllers[("ctl-%02d-" % i + "x" * (case.get("idlen", 20))).encode()] = bytes([i + 1]) * 32
+            await p.list_accessories_and_characteristics()
+            try:
+                got = await p.list_pairings()
+            except Exception as e:  # noqa: BLE001
+                R.fail("C15.roundtrip", f"CoAP list_pairings with {n} controllers: {type(e).__name__}: {e}")
+                return
+            want = sorted((cid.decode(), pk.hex()) for cid, pk in w.ident.controllers.items())
+            have = sorted((x["pairingId"], x["publicKey"]) for x in got)
+            if have != want:
+                R.fail("C15.roundtrip", f"CoAP list_pairings with {n} controllers returned {have!r:.300}, the accessory holds {want!r:.300}")
+            await p.shutdown()
+        finally:
+            w.restore()
+    vtime.run(main)
+
+
+C15_COAP_LAYERS = [Layer("coap-list-pairings", run_c15_coap, enumerate=lambda tier: ({"n": n, "idlen": l} for n in range(1, 9) for l in (4, 20, 36)), exhaustive=True,
+                         space="list_pairings over CoAP with 1..8 controllers x 3 identifier lengths (pairing TLVs of 45 to 700 bytes inside the HAP-Param Value)", min_nontrivial=5)]
